@@ -111,9 +111,17 @@ def run_scenario(item):
             name = st.get('c')
             if op == 'state':
                 # expectation after the pooler's internal steps have settled
+                newly_waiting = False
                 for n2, pcv in st['pcs'].items():
                     if n2 in outstanding and pcv == 'wait':
+                        if n2 not in waited:
+                            newly_waiting = True
                         waited.add(n2)
+                if newly_waiting:
+                    # the model says this request has to wait for a connection: give a pooler that serves it at once (it must
+                    # not) the time to do so before the next step is taken, so that the order of the records tells
+                    time.sleep(0.08)
+                for n2, pcv in st['pcs'].items():
                     if n2 in outstanding and pcv in ('idle', 'intx'):
                         read_pending(n2)
                     elif n2 in outstanding and pcv == 'gone':
@@ -335,7 +343,15 @@ def run_scenario(item):
                     z.query('COMMIT')
                 be.fault('startup_error')
                 time.sleep(0.05)
-                r0 = probes[0].query('SELECT 1', timeout=3.0) if probes else None
+                # enough statements while the server is away for the dead pooled connections to be found out and for
+                # new start-ups to be attempted and refused
+                for _ in range(2 * pool_size + 1):
+                    try:
+                        z0 = Client(w.port, name='W', timeout=4.0)
+                        z0.query('SELECT 1', timeout=3.0)
+                        z0.close()
+                    except OSError:
+                        pass
                 be.fault('up')
                 time.sleep(0.2)
                 # connections pooled before the restart are dead and are found out one failed statement at a time: that is
